@@ -253,3 +253,7 @@ def replay(case):
     elif case["kind"] == "required":
         errs = [e for e in errs if e[1] == "required"]
     return bool(errs), "validator errors: %r" % (errs[:3],)
+
+
+def replay_task(case):
+    return product.replay_task(jsonspace.blocks(case.get("tier") or "quick"), visit, sweep.new_acc, case)
